@@ -291,3 +291,16 @@ def history_c09(env):
             return 'the other side did not report the connection lost within a second'
         return None
     return _history_check(env, 'history_c09', ['C09'], 'an explicit disconnect removes the peer locally at once with LostPeer(Requested), later RPCs fail, and the other side reports the loss', pred)
+
+
+def decode_sweep(env):
+    """C06 / C07 on the real decoders: bounded exhaustive sweep (see the scenario); no offered byte string may panic the decode path"""
+    got = _run('decode_sweep', {}, env)
+    fails = []
+    if got.get('panicked') or got.get('panics', 1) != 0:
+        fails.append(dict(scenario='read_request' if not got.get('panicked') else 'decode_sweep',
+                          args=dict(bytes=got.get('first_panicking_input')) if got.get('first_panicking_input') else {},
+                          expected=dict(ok=False, note='an error, never a panic'), observed=got))
+    return dict(name='decode_sweep', validates='totality of the real request / response decoders (including bincode and tokio-util) on %s byte strings: every short header frame over a 4-letter alphabet, every truncation and single-byte corruption of two valid messages, huge length prefixes' % got.get('inputs'),
+                cases=got.get('inputs', 0) * 2, failed=fails, ok=not fails, props=['C06', 'C07'],
+                clause='decoding arbitrary bytes never panics; a malformed, truncated or oversized request is rejected with an error')
